@@ -8,11 +8,11 @@
 EXTENDS Yuvxyb, Json
 
 ThreshW == {1, 2, 1279, 1280, 1281}
-ThreshH == {1, 2, 479, 480, 481, 487, 488, 489, 575, 576, 577, 1080}
+ThreshH == {1, 2, 479, 480, 481, 484, 487, 488, 489, 575, 576, 577, 1080}
 \* thresholds are crossed one dimension at a time (cheap frames) plus a few joint sizes
 UnspecSizes == {<<w, h>> : w \in ThreshW, h \in {1, 2}} \cup {<<w, h>> : w \in {1, 2}, h \in ThreshH}
                \cup {<<1279, 576>>, <<1279, 480>>}
-UnspecSizesQuick == {<<2, 2>>, <<1279, 2>>, <<1280, 2>>, <<1281, 1>>, <<2, 479>>, <<2, 480>>, <<2, 488>>, <<1, 489>>,
+UnspecSizesQuick == {<<2, 2>>, <<1279, 2>>, <<1280, 2>>, <<1281, 1>>, <<2, 479>>, <<2, 480>>, <<1, 481>>, <<2, 484>>, <<1, 487>>, <<2, 488>>, <<1, 489>>,
                      <<2, 576>>, <<1, 575>>, <<2, 577>>, <<2, 1080>>}
 SupportSizes == {<<2, 2>>}
 Ss00 == {<<0, 0>>}
